@@ -138,3 +138,16 @@ loop('Buffer._pass_part_downstream', 2, 'for dwn in self.get_sorted_downstream_l
                              '    not trace_resb(at_loop_entry(trace_len()) + j) for j in range(k)) and '
                              'trace_len() == at_loop_entry(trace_len()) + k'),
      modifies=['self._waiting_for_downstream_space', 'self._cycle_time', 'self._next_cycle_time_offset', '$trace'], index='k')
+
+contract('Buffer.__init__', props=['C05'], invariants='prove_only', fresh_self=True,
+         args={'name': 'str', 'upstream': 'list[ref:PartFlowController]?', 'minimum_delay': 'real', 'capacity': 'int?', 'value': 'real'},
+         requires={'parameters': 'minimum_delay >= 0 and upstream is None and (capacity is None or capacity >= 1)',
+                   'system_exists': 'System._instance is not None and alive(System._instance) and '
+                                    'System._instance._assets is not None and alive(System._instance._assets) and '
+                                    'not System._instance._simulation_is_initialized'},
+         ensures={'starts_empty': 'len(self._buffer) == 0 and self._level == 0',
+                  'unbounded_by_default': 'implies(capacity is None, self._capacity > 1000000)'})
+contract('Buffer.stored_parts', props=['C05'], args={}, result='list[ref:Part]',
+         ensures={'lists_the_stored_items_in_order':
+                      'len(result) == len(self._buffer) and all(result[i] is self._buffer[i][1] for i in range(len(result)))'},
+         modifies=[])
